@@ -97,6 +97,10 @@ static void build_cfg_list(void)
 			for (uint32_t N1 = 4; N1 <= 6 && N1 <= rr; N1 += 2)
 				for (unsigned si = 0; si < (T ? 6u : 3u); si++) add_cfg(3, 0, k, rr, N1, seeds[(i + j + si) % 8], k + rr > exh);
 		}
+		/* high left degrees: many equations reach degree 1 at once (growth of the IT decoder's degree-1 table, wide ML rows) */
+		static const uint32_t hn[][3] = { {3,12,9}, {4,12,12}, {6,10,10}, {8,16,12}, {5,20,16}, {10,40,32}, {2,9,9}, {20,30,11}, {7,64,64} };
+		for (unsigned i = 0; i < sizeof hn / sizeof hn[0]; i++)
+			for (unsigned si = 0; si < (T ? 4u : 2u); si++) add_cfg(3, 0, hn[i][0], hn[i][1], hn[i][2], seeds[(i + si) % 8], hn[i][0] + hn[i][1] > exh);
 		static const uint32_t lk[] = { 16, 20, 33, 64, 100, 250, 1000 };
 		for (unsigned i = 0; i < sizeof lk / sizeof lk[0]; i++) {
 			uint32_t k = lk[i];
